@@ -496,6 +496,7 @@ package pubsub
 //@   ensures noeffect: unmodified(dguarded(it.list))
 //@   ensures woken: result == nil && waitkind("take") ==> len(it.list.view) > 0
 //@   ensures failed: result != nil ==> (result == ErrQueueClosed && it.list.closed) || (result != ErrQueueClosed && done(ctx))
+//@   ensures[C20,C07] handoff: (direction ==> (it.list.wNB + it.list.wBI > 0 ==> it.list.sNB + it.list.sBI > 0)) && (!direction ==> (it.list.wNF + it.list.wFI > 0 ==> it.list.sNF + it.list.sFI > 0))
 //@   loop 1 invariant held(it.list.mtx) && dqinv(it.list) && dlinks(it.list) && dcounters(it.list) && dwkU(it.list) && unmodified(dguarded(it.list))
 //@   loop 1 invariant waitkind("take") ==> next == it.list.root
 //@   loop 1 invariant (cond != it.list.nfront ==> dwkF(it.list)) && (cond != it.list.nback ==> dwkB(it.list))
